@@ -88,6 +88,7 @@ ANDERSON_SLACK = 30.0  # was 1e3 before fix fdff869; the mixture of earlier iter
 # direct solves on degenerate-mobility inputs (measured 2.7e-9 on the 1-D 'centre-zero' input, i.e. 2.7 x the plain tolerance)
 TOL_GEN_BREGMAN = 1e-4  # the shrink step thresholds (max(.,0)): under a non-power-of-two factor rounding can flip a face in / out of the
 # active set of an unconverged iterate (measured 3e-6 on 4x5 after 200 iterations); power-of-two factors stay at 1e-9
+EXTREME_TOL_DIRECT = 1e-6     # 8 unconverged Newton iterations at masses x 2^30: measured 7.7e-9 on 12x12 (rounding, different pivoting)
 EXTREME_TOL_ITERATIVE = 1e-4  # amg / cg with default (relative 1e-6) linear tolerances: distance reproduced to 6 digits at small scales (measured)
 EXTREME_LARGE_BOUND = 0.05    # known: at masses x 2^20 .. 2^30 amg / cg Newton distances deviate by up to 1.5 % (measured), see findings
 TOL_TIE = 1e-9     # returned distance vs independently recomputed cost of the returned flux
@@ -281,6 +282,7 @@ def run_case(cfg):
     method, l1, mob, ni = cfg["method"], cfg["l1"], cfg["mob"], cfg["num_iter"]
     thin = sum(1 for s in shape if s > 1) <= 1
     fails, stats, n = [], {}, 0
+    degenerate = False
     base_rp = {k: cfg[k] for k in ("shape", "hs", "m1", "m2", "method", "l1", "mob", "num_iter")}
 
     def fail(sig, what, **kw):
@@ -307,6 +309,8 @@ def run_case(cfg):
     # (i) the returned distance is the cost of a mass-conserving flux
     try:
         U_axes = recover_flux(info["flux"], shape)
+        allU = np.concatenate([np.ravel(u) for u in U_axes]) if U_axes else np.zeros(0)
+        degenerate = bool(allU.size and np.any(np.abs(allU) <= 1e-9 * max(float(np.max(np.abs(allU))), 1e-300)))
         rhs = (m2 - m1) * float(np.prod(hs))
         res = float(np.max(np.abs(divergence(U_axes, shape, hs) - rhs))) / max(float(np.max(np.abs(rhs))), 1e-300)
         stats["max_feas_residual"] = res
@@ -363,6 +367,14 @@ def run_case(cfg):
             fail(f"C05:scale:raises:{method}", f"{cls}: scaled pair raises {rr}")
             continue
         e = abs(float(rr[0]) / s - dist) / max(dist, scale)
+        if degenerate:
+            # a face flux of the iterate vanishes (compact / dyadic data): mobility weights 1/regularization, condition ~1e16; the two
+            # runs pivot differently and agree only to the conditioning (same input class as the thin degenerate-mobility finding)
+            stats[f"max_scale_{tag}_degenerate_err"] = e
+            if e > tol:
+                fail(f"C05:scale:degenerate-mobility:{method}:dev<=0.1%" if e <= 1e-3 else f"C05:scale:degenerate-mobility:{method}:dev>0.1%",
+                     f"{cls} grid {shape}: iterate with a vanishing face flux: d(s m1, s m2)/s = {float(rr[0]) / s!r} for s={s!r} but d(m1,m2)={dist!r} (relative {e:.3g})", distance=dist, s=s)
+            continue
         stats[f"max_scale_{tag}_err"] = e
         if e > tol:
             fail(f"C05:scale:{tag}:{method}", f"{cls} grid {shape}: d(s m1, s m2)/s = {float(rr[0]) / s!r} for s={s!r} but d(m1,m2)={dist!r}", distance=dist, s=s, scaled=float(rr[0]))
@@ -1327,7 +1339,7 @@ def extreme_scale_oracle(ctx, d):
                     ctx.fail(bregman_scale_signature(dev, v[2] and base[2]), f"grid {tuple(shape)} bregman/{backend} default options, masses x 2^{e}: d/s = {dist / sc!r} vs {d1!r} "
                              f"(relative deviation {dev:.3g})", {**rp, "exponent": e})
                 continue
-            tol = TOL_EXACT if backend == "direct" else EXTREME_TOL_ITERATIVE
+            tol = EXTREME_TOL_DIRECT if backend == "direct" else EXTREME_TOL_ITERATIVE
             if dev > tol:
                 if backend != "direct" and e > 0 and dev <= EXTREME_LARGE_BOUND:
                     sig = f"C05:extreme-scale:newton:{backend}:large-scale:dev<=5%"
